@@ -89,6 +89,16 @@ def lame(ctx, k):
             with ctx.guard("lame_parameters", key=f"exc/lame_parameters/{name}", pair=name, lam=lam, mu=mu):
                 got = lame_parameters(**kw)
                 ctx.close("lame_parameters_standard_conversion", np.array(got, dtype=float), np.array([lam, mu]), 1e-6 * (lam + mu), key=f"lame/{name}", pair=name, lam=lam, mu=mu)
+    # boundary value of the elastic constants: Poisson's ratio 0 (lambda = 0, E = 2 mu); the library rejects lambda < 0
+    for nu0 in (0.0,):
+        mu = float(np.exp(rng.uniform(-3, 3)))
+        lam0 = 2 * mu * nu0 / (1 - 2 * nu0)
+        E0 = 2 * mu * (1 + nu0)
+        for name, kw in {"shear+poisson": dict(shear_modulus=mu, poissons_ratio=nu0), "second+poisson": dict(second_parameter=mu, poissons_ratio=nu0), "poisson+youngs": dict(poissons_ratio=nu0, youngs_modulus=E0), "first+second": dict(first_parameter=lam0, second_parameter=mu), "first+shear": dict(first_parameter=lam0, shear_modulus=mu)}.items():
+            with ctx.guard("lame_parameters(boundary)", key=f"exc/lame_parameters/{name}", pair=name, poissons_ratio=nu0):
+                got = lame_parameters(**kw)
+                ctx.close("lame_parameters_at_boundary_values", np.array(got, dtype=float), np.array([lam0, mu]), 1e-6 * (abs(lam0) + mu), key=f"lame/{name}/boundary", pair=name, poissons_ratio=nu0)
+        ctx.bucket("lame/boundary")
     with ctx.guard("lame_parameters(rubber)", key="exc/lame_parameters/material"):
         lam, mu = lame_parameters(material_name="rubber")
         ctx.close("rubber_preset", np.array([lam, mu]), np.array([2 * 0.0006 * 0.4999 / (1 - 2 * 0.4999), 0.0006]), 1e-9, key="lame/material")
